@@ -81,7 +81,7 @@ def main():
         "engines": [{"name": "vf", "path": "vf/", "serves_properties": sorted(CHECKS), "kind_free_text": "property-based testing (Hypothesis 6.168), exhaustive enumeration of bounded domains, model-based histories, Atheris fuzzing for C07 thorough"}],
         "checks": checks,
         "not_applicable": na,
-        "notes": "All checks: ./check <ID> [--tier quick|thorough] [--replay FILE]; VERIF_SEED honoured; exit 2 = harness error. Known findings / fixed defects: known_findings.json (D1-D107, all fixed by fix: commits in /repo; no open finding, so no check prints a KNOWN-FINDING line). Seeded changes used for the sensitivity tests: seeded/ (152 kept, table in DESIGN.md section 7).",
+        "notes": "All checks: ./check <ID> [--tier quick|thorough] [--replay FILE]; VERIF_SEED honoured; exit 2 = harness error. Known findings / fixed defects: known_findings.json (D1-D108 fixed by fix: commits in /repo; one open finding, D109 (deep group nesting: RecursionError on a removal cascade), for which ./check C07 prints one KNOWN-FINDING line and exits 0). Seeded changes used for the sensitivity tests: seeded/ (152 kept, table in DESIGN.md section 7).",
     }
     with open(os.path.join(HERE, "MANIFEST.json"), "w") as f:
         json.dump(m, f, indent=1)
